@@ -71,11 +71,26 @@ pub fn build_runtime(k: i32) -> Runtime<NoCtx> {
     Runtime::from_lib(lib).expect("runtime")
 }
 
+/// Version `v` of the package: two modules, each with a constant `K` holding a tracked value,
+/// a record constant with a tracked field (read through a field), constants whose
+/// initialisers leave droppable temporaries behind, a zero-sized constant.
+pub fn script_files(v: i32) -> Vec<(String, String)> {
+    let root = format!(
+        "record Conf {{\n    t: Tr,\n    n: i32,\n}}\nconst K: Tr = mk({k});\nconst Z: Tz = mkz();\nconst C: Conf = Conf {{ t: mk({c}), n: 5 }};\nconst SAME: bool = REG == REG;\nconst N: i32 = C.n + K.tag() - K.tag();\nfn f(x: i32) -> i32 {{\n    x * {v} + K.tag() + REG.tag() + host() + host_a() - host_b() + C.n - N + (if SAME {{ 0 }} else {{ 1000 }}) + C.t.tag() - {c} + m1.g() - {m}\n}}\nfn other(x: i32) -> i32 {{\n    K.tag() - x\n}}\n",
+        k = 300 + v,
+        c = 700 + v,
+        m = 800 + v
+    );
+    let m1 = format!("const K: Tr = mk({});\nfn g() -> i32 {{\n    K.tag()\n}}\n", 800 + v);
+    vec![("pkg".to_string(), root), ("m1".to_string(), m1)]
+}
+
 pub fn script(v: i32) -> String {
-    format!(
-        "const K: Tr = mk({});\nconst Z: Tz = mkz();\nfn f(x: i32) -> i32 {{\n    x * {v} + K.tag() + REG.tag() + host() + host_a() - host_b()\n}}\nfn other(x: i32) -> i32 {{\n    K.tag() - x\n}}\n",
-        300 + v
-    )
+    script_files(v).iter().map(|(n, t)| format!("=== {n}.roto ===\n{t}")).collect()
+}
+
+pub fn compile_version(rt: &Runtime<NoCtx>, v: i32) -> Result<Package<NoCtx>, String> {
+    crate::props::c06::build_tree(&script_files(v)).compile(rt).map_err(|e| host::render_report(&e))
 }
 
 struct St {
@@ -137,7 +152,7 @@ impl WorkerState for W {
                         if st.packages.iter().flatten().count() < 4 {
                             let v = 1 + (b % 3) as i32;
                             let rt = &st.runtimes[r].as_ref().unwrap().0;
-                            let pkg = match host::compile(rt, &script(v)) {
+                            let pkg = match compile_version(rt, v) {
                                 Ok(p) => p,
                                 Err(e) => return fail("rejected", e, &trace),
                             };
@@ -330,12 +345,13 @@ impl WorkerState for W {
                 let same_version_referred = st.pkg_info.iter().enumerate().any(|(pj, (_, w))| {
                     w == v && (st.packages[pj].is_some() || st.handles.iter().flatten().any(|(_, p, _)| *p == pj) || st.funcs.iter().flatten().any(|(_, p, _)| *p == pj))
                 });
-                let tag = 300 + v;
-                if referred && count(tag) == 0 {
-                    return fail("released-too-early", format!("script constant with tag {tag} was dropped while its package or a handle is alive"), &trace);
-                }
-                if !same_version_referred && count(tag) > 0 {
-                    return fail("not-released", format!("script constant with tag {tag} is still alive although every package and handle of that version is gone"), &trace);
+                for tag in [300 + v, 700 + v, 800 + v] {
+                    if referred && count(tag) == 0 {
+                        return fail("released-too-early", format!("script constant with tag {tag} was dropped while its package or a handle is alive"), &trace);
+                    }
+                    if !same_version_referred && count(tag) > 0 {
+                        return fail("not-released", format!("script constant with tag {tag} is still alive although every package and handle of that version is gone"), &trace);
+                    }
                 }
             }
             // the zero-sized script constant Z lives once per compiled package that is still referred to
@@ -393,7 +409,7 @@ impl Prop for C11P {
         "C11"
     }
     fn rule(&self) -> String {
-        "histories of up to 40 operations (one proptest chunk each): build runtime k (registers a drop-tracked constant, a closure capturing a tracked value that scripts call, two closures made by one factory (same Rust type, different captured tracked values) that scripts call, and a closure no script uses), compile script version v on a live runtime (script constants holding a tracked value and a zero-sized drop-counted value that is never read; f(x) = x*v + K + REG + host() + host_a() - host_b()), get handle, clone handle, call, drop handle / package / runtime, turn a clone into an `impl Fn` with into_func(), call and drop that closure, move a handle to another thread, call and drop it there, let 2-4 threads clone, call and drop clones of one handle at the same time; oracle after every step: each call returns the model's value for its version and runtime; per tag, tracked values are alive while a runtime, package or handle refers to them, script constants are released as soon as nothing refers to their version, nothing is dropped twice, and after dropping everything the live set equals the initial one. Non-trivial: a call happens after the package and/or runtime that produced the handle were dropped, or the same script version was compiled more than once; distinct by decoded history".into()
+        "histories of up to 40 operations (one proptest chunk each): build runtime k (registers a drop-tracked constant, a closure capturing a tracked value that scripts call, two closures made by one factory (same Rust type, different captured tracked values) that scripts call, and a closure no script uses), compile script version v on a live runtime (two modules each with a constant `K` holding a tracked value, a record constant with a tracked field read through a field, constants whose initialisers leave droppable temporaries, a zero-sized drop-counted constant that is never read; f(x) = x*v + K + REG + host() + host_a() - host_b()), get handle, clone handle, call, drop handle / package / runtime, turn a clone into an `impl Fn` with into_func(), call and drop that closure, move a handle to another thread, call and drop it there, let 2-4 threads clone, call and drop clones of one handle at the same time; oracle after every step: each call returns the model's value for its version and runtime; per tag, tracked values are alive while a runtime, package or handle refers to them, script constants are released as soon as nothing refers to their version, nothing is dropped twice, and after dropping everything the live set equals the initial one. Non-trivial: a call happens after the package and/or runtime that produced the handle were dropped, or the same script version was compiled more than once; distinct by decoded history".into()
     }
     fn assumptions(&self) -> Vec<String> {
         vec![
